@@ -20,9 +20,14 @@ type conv struct {
 	s2b  func(string) []byte
 }
 
+// c20Raw is a named byte-slice type (like json.RawMessage): assignable to []byte, so it is a legal argument.
+type c20Raw []byte
+
 var convs = []conv{
-	{"go1.21+", unsafex.BinaryToString, unsafex.StringToBinary},
-	{"legacy(pre-go1.21 file)", legacyunsafex.BinaryToString, legacyunsafex.StringToBinary},
+	// (called, not taken as function values: a conversion that became generic over its argument type still builds)
+	{"go1.21+", func(b []byte) string { return unsafex.BinaryToString(b) }, func(s string) []byte { return unsafex.StringToBinary(s) }},
+	{"legacy(pre-go1.21 file)", func(b []byte) string { return legacyunsafex.BinaryToString(b) }, func(s string) []byte { return legacyunsafex.StringToBinary(s) }},
+	{"go1.21+, argument of a named slice type", func(b []byte) string { return unsafex.BinaryToString(c20Raw(b)) }, func(s string) []byte { return unsafex.StringToBinary(s) }},
 }
 
 func c20Lens(thorough bool) []int {
